@@ -2,6 +2,7 @@ package vc
 
 import (
 	"fmt"
+	"go/ast"
 	"go/constant"
 	"go/types"
 	"math/big"
@@ -199,6 +200,20 @@ func (e *Env) lookupType(s string) types.Type {
 		}
 		return nil
 	}
+	if strings.HasPrefix(s, "[]") {
+		if t := e.lookupType(s[2:]); t != nil {
+			return types.NewSlice(t)
+		}
+		return nil
+	}
+	for _, b := range types.Typ {
+		if b.Name() == s {
+			return b
+		}
+	}
+	if s == "byte" {
+		return types.Typ[types.Uint8]
+	}
 	pkgPath, name := e.pkg, s
 	if i := strings.LastIndex(s, "."); i >= 0 {
 		alias := s[:i]
@@ -331,7 +346,34 @@ func (g *Gen) localByName(name string, li *loopInfo) (TV, bool) {
 	if found != nil {
 		return TV{g.vals[found], g.u.SortOf(found.Type()), found.Type()}, true
 	}
-	// SSA register names t12 (fragile; allowed for debugging only)
+	// source-level variable via DebugRef: the last non-address reference whose
+	// block dominates the point of interest
+	var at *ssa.BasicBlock
+	if li != nil {
+		at = li.header
+	} else {
+		at = g.curBlock
+	}
+	var best ssa.Value
+	for _, b := range g.fn.Blocks {
+		if at != nil && !(b == at || b.Dominates(at)) {
+			continue
+		}
+		for _, in := range b.Instrs {
+			dr, ok := in.(*ssa.DebugRef)
+			if !ok || dr.IsAddr {
+				continue
+			}
+			if id, ok := dr.Expr.(*ast.Ident); ok && id.Name == name {
+				if _, defined := g.vals[dr.X]; defined || isConst(dr.X) {
+					best = dr.X
+				}
+			}
+		}
+	}
+	if best != nil {
+		return TV{g.val(best), g.u.SortOf(best.Type()), best.Type()}, true
+	}
 	return TV{}, false
 }
 
@@ -791,3 +833,5 @@ func (e *Env) call(x *spec.Call) TV {
 	}
 	return TV{fmt.Sprintf("(f.%s %s)", x.Fn, strings.Join(args, " ")), rs, nil}
 }
+
+func isConst(v ssa.Value) bool { _, ok := v.(*ssa.Const); return ok }
